@@ -79,12 +79,26 @@ impl Driver {
         let _ = std::fs::remove_file(&path);
         micro_http::verif::drain();
         let before = fd_list();
-        let mut server = HttpServer::new(&path).expect("server");
+        // two ways to construct the server: bind by path, or adopt a listener we bound ourselves
+        let from_fd = hist % 3 == 1;
+        let mut server = if from_fd {
+            let l = std::os::unix::net::UnixListener::bind(&path).expect("bind");
+            let fd = std::os::unix::io::IntoRawFd::into_raw_fd(l);
+            // SAFETY: fd is a listener we own and hand over.
+            unsafe { HttpServer::new_from_fd(fd).expect("server") }
+        } else {
+            HttpServer::new(&path).expect("server")
+        };
         let after = fd_list();
         let newfds: Vec<i32> = after.iter().cloned().filter(|f| !before.contains(f)).collect();
         let epoll_fd = server.epoll().as_raw_fd();
         let listener_fd = newfds.iter().cloned().find(|f| *f != epoll_fd).unwrap_or(-1);
         server.set_payload_max_size(limit);
+        // the kill switch may be registered before or after start_server
+        let kill_late = hist % 2 == 1;
+        if kill_late {
+            server.start_server().unwrap();
+        }
         let (kill, kill_fd) = if with_kill {
             let k = EventFd::new(libc::EFD_NONBLOCK).unwrap();
             let mine = k.try_clone().unwrap();
@@ -94,7 +108,9 @@ impl Driver {
         } else {
             (None, -1)
         };
-        server.start_server().unwrap();
+        if !kill_late {
+            server.start_server().unwrap();
+        }
         let clients = (0..nclients)
             .map(|_| {
                 // SAFETY: plain socket(2) call.
@@ -104,7 +120,7 @@ impl Driver {
             .collect();
         let d = Driver { server, path, clients, held: vec![], kill, listener_fd, epoll_fd, kill_fd, base_fds: 0 };
         let line = json!({"e": "reset", "hist": hist, "maxconn": crate::MAX_CONN, "buf": crate::BUF, "limit": obs::digits(limit as u128),
-                          "kill": with_kill, "lfd": listener_fd, "kfd": kill_fd, "nclients": nclients,
+                          "kill": with_kill, "lfd": listener_fd, "kfd": kill_fd, "nclients": nclients, "from_fd": from_fd, "kill_late": kill_late,
                           "srvfds": d.server_fd_count()});
         writeln!(out, "{}", line).unwrap();
         d
@@ -231,6 +247,33 @@ impl Driver {
                 let r = self.server.respond(resp);
                 line["tag"] = obs::bytes(&tag);
                 line["ser"] = obs::bytes(&ser);
+                line["res"] = json!(srv_res(&r.map(|_| vec![])));
+                line["hooks"] = hooks();
+            }
+            "respond_many" => {
+                // answer up to n held requests (any clients) with one enqueue_responses call
+                let n = (st["n"].as_u64().unwrap_or(2) as usize).min(self.held.len());
+                if n == 0 {
+                    return false;
+                }
+                let mut items = vec![];
+                let mut batch = vec![];
+                for _ in 0..n {
+                    let (c, tag, req) = self.held.remove(0);
+                    let body = tag.clone();
+                    let mk = |b: &[u8]| {
+                        let mut r = Response::new(Version::Http11, StatusCode::OK);
+                        r.set_body(Body::new(b.to_vec()));
+                        r
+                    };
+                    let mut ser = vec![];
+                    mk(&body).write_all(&mut ser).unwrap();
+                    items.push(json!({"c": c, "tag": obs::bytes(&tag), "ser": obs::bytes(&ser)}));
+                    batch.push(req.process(|_| mk(&body)));
+                }
+                micro_http::verif::drain();
+                let r = self.server.enqueue_responses(batch);
+                line["items"] = json!(items);
                 line["res"] = json!(srv_res(&r.map(|_| vec![])));
                 line["hooks"] = hooks();
             }
